@@ -138,7 +138,7 @@ def check(run, replay, prop):
         if not thorough:
             args += ["-budget", "60s"]
         else:
-            args += ["-budget", "600s", "-max", "40000"]
+            args += ["-budget", "240s", "-max", "40000"]
         try:
             run.run_driver(binary, args, timeout=3000)
         except vlib.Crash as c:
